@@ -233,8 +233,14 @@ def eqIgnore (br : BR) (t1 t2 : Template) : Bool :=
   kvEq (kvEraseAll t1.labels (ignoreLabels br)) (kvEraseAll t2.labels (ignoreLabels br)) &&
   kvEq (kvEraseAll t1.annos (ignoreAnnos br)) (kvEraseAll t2.annos (ignoreAnnos br))
 
-/-- newest first (`sort.Slice … CreationTimestamp.After`; creation times are distinct) -/
-def newestFirst (ds : List Dep) : List Dep := ds.mergeSort (fun a b => decide (a.created ≥ b.created))
+/-- insert into a list that is sorted newest first -/
+def insertNewest (d : Dep) : List Dep → List Dep
+  | [] => [d]
+  | x :: xs => if d.created ≥ x.created then d :: x :: xs else x :: insertNewest d xs
+
+/-- newest first (`sort.Slice … CreationTimestamp.After`; creation times are distinct, so every sorting
+    algorithm gives the same list) -/
+def newestFirst (ds : List Dep) : List Dep := ds.foldr insertNewest []
 
 /-- `filterCanaryDeployment` -/
 def filterCanary (br : BR) (ds : List Dep) (tpl : Option Template) : Option Dep :=
